@@ -254,6 +254,7 @@ def c06(g, tier):
     yield from midsize_sessions(g, "C06/mid", ["sdes", "nack", "fir", "firbig", "sizes"], quick=("c06" if tier == "quick" else False))
     yield from type0_sessions(g, "C06/type0")
     yield from nack_sibling_sessions(g, 80 if tier == "quick" else 2000, "C06/sib")
+    yield from nack_tiny_universe_sessions(g, 6 if tier == "quick" else 100, "C06/tiny")
     # standalone SDES item / chunk writers
     for i in range(300 if tier == "quick" else 5000):
         bad = g.r.random() < 0.1
@@ -286,6 +287,7 @@ def c07_extra(g, tier):
     yield from midsize_sessions(g, "C07/mid", ["sdes", "nack", "fir", "sizes"])
     yield from nack_sibling_sessions(g, 60 if tier == "quick" else 2000, "C07/sib")
     yield from type0_sessions(g, "C07/type0")
+    yield from nack_tiny_universe_sessions(g, 4 if tier == "quick" else 100, "C07/tiny")
 
 
 def c17(g, tier):
@@ -376,6 +378,7 @@ def c16(g, tier):
         for f in ("nack", "pli", "sli", "rpsi", "fir"):
             yield build_session(f"C16/fbkind/{kind}/{f}", kind, [{"c": "new", "fci": g.fci(f), "owned": g.r.random() < 0.5}], rt=False)
     yield from midsize_sessions(g, "C16/mid", ["firbig"], quick=("c16" if tier == "quick" else False))
+    yield from exact_max_sessions(g, "C16/max")
     # total size above 65536 words
     for nbytes in (262140 - 12, 262144 - 12, 262148 - 12):
         yield build_session(f"C16/big/app/{nbytes}", "app", [{"c": "new", "ssrc": [0, 1], "name": [65]}, {"c": "data", "v": [], "big": {"rep": 7, "n": nbytes}}], rt=False)
@@ -472,8 +475,8 @@ def nack_sibling_sessions(g, n, sidp):
     r = g.r
     for i in range(n):
         big = r.random() < 0.3
-        k = r.randrange(64, 90) if big else r.randrange(4, 9)
-        base = sorted(r.sample(range(1, 4000 if big else 400), k))
+        k = (r.randrange(1030, 1100) if r.random() < 0.2 else r.randrange(64, 90)) if big else r.randrange(4, 9)
+        base = sorted(r.sample(range(1, 40000 if k > 1000 else 4000 if big else 400), k))
         a = list(base)
         b = list(base)
         x, y = r.sample(range(1, k - 1), 2) if k > 3 else (1, 2)
@@ -485,7 +488,7 @@ def nack_sibling_sessions(g, n, sidp):
             bit = 1 << r.randrange(0, 4)
             b[x] ^= bit
             b[y] ^= bit                     # same xor
-        b = sorted(set(v for v in b if 0 < v < 4000))
+        b = sorted(set(v for v in b if 0 < v < 40000))
         if len(b) != len(a) or b == a or b[0] != a[0] or b[-1] != a[-1]:
             continue
         off = r.choice([0, 1000, 65000])
@@ -592,6 +595,13 @@ def reuse_sessions(g, n, sidp):
             {"op": "calc_size"}, {"op": "write_into", "rel": 4, "len": 64, "fill": 4}, {"op": "write_into", "rel": 4, "len": 64, "fill": 0},
             {"op": "write_into", "rel": 4, "len": 64, "fill": 4}]
         yield ops
+    # every kind of builder with padding written into a dirty buffer that happens to hold a trailer-like word
+    # at the end of the announced size (prefill mode 5), and the same into a differently filled buffer
+    for i in range(n):
+        k, calls = g.builder(r.choice(["sr", "rr", "sdes", "bye", "app", "unk", "tfb", "pfb", "custom"]), small=True)
+        calls = [c for c in calls if c["c"] != "padding"] + [{"c": "padding", "v": r.choice([8, 12, 16, 24, 252])}]
+        yield [reset(f"{sidp}/trailer/{i}")] + calls_to_ops(k, calls) + [{"op": "calc_size"}, {"op": "write_into", "rel": 4, "len": 64, "fill": 5},
+                                                                          {"op": "write_into", "rel": 4, "len": 64, "fill": 0}]
     # random builders written over whatever the previous write of the session left in the buffer
     for i in range(n):
         k1, c1 = g.builder(small=True)
@@ -614,6 +624,85 @@ def giant_chunk_sessions(g, sidp, build=False):
             b = hdr(2, False, 1, 202, (4 + len(body)) // 4 - 1) + body
             yield [reset(f"{sidp}/parse/{k}"), {"op": "parse", "kind": "sdes", "b": b}]
 
+
+
+def padding_count_sweep(g, sidp):
+    """padding bit set: the final byte against the room behind the fixed part, for every packet type, at lengths
+    below and above 256 bytes"""
+    r = g.r
+    for kind in TYPED:
+        mn = MINLEN[kind]
+        for ln in sorted({mn, mn + 4, mn + 8, 252, 256, 260, 264, 268, 272, 284, 512, 1028} - set(range(0, mn))):
+            room = ln - mn
+            for last in sorted({0, 1, 3, 4, 5, max(0, room - 4) % 256, room % 256, (room + 1) % 256, (room + 4) % 256, 252, 255}):
+                cnt = 0
+                b = hdr(2, True, cnt, PT[kind], ln // 4 - 1) + [0] * (ln - 4)
+                if kind == "sdes" and ln >= 12:
+                    b[4:12] = [0, 0, 0, 9, 1, 1, 65, 0]
+                    b[0] |= 1
+                b[-1] = last
+                yield [reset(f"{sidp}/{kind}/{ln}/{last}"), {"op": "parse_all", "b": b}]
+
+
+def bye_body_sweep(g, sidp):
+    """short BYE bodies completely: count, reason length byte, padding bit and final byte"""
+    for cnt in (0, 1):
+        for ln in (8, 12, 16):
+            for p in (False, True):
+                for rl in list(range(0, 13)) + [255]:
+                    for last in ((0, 1, 2, 3, 4, 5, 8, 255) if p else (0,)):
+                        body = [9] * (4 * cnt) + [rl] + [0x61 + i % 26 for i in range(ln - 4 - 4 * cnt - 1)]
+                        body = body[:ln - 4]
+                        b = hdr(2, p, cnt, 203, ln // 4 - 1) + body
+                        if len(b) != ln:
+                            continue
+                        if p:
+                            b[-1] = last
+                        yield [reset(f"{sidp}/{cnt}/{ln}/{int(p)}/{rl}/{last}"), {"op": "parse_all", "b": b}]
+
+
+def huge_direct_sessions(g, sidp):
+    """direct entry points on slices whose length only fits the expectation modulo 2^16"""
+    for ln in (65536 + 24, 65536 + 10, 131072 + 24, 65536, 65560):
+        yield [reset(f"{sidp}/rb/{ln}"), {"op": "parse", "kind": "rb", "b": {"rep": 7, "n": ln}}]
+    for ln in (65536, 131072, 65540):
+        yield [reset(f"{sidp}/pli/{ln}"), {"op": "parse", "kind": "pli", "b": {"rep": 0, "n": ln}}]
+        b = hdr(2, False, 1, 206, (12 + ln) // 4 - 1) + [0, 0, 0, 1, 0, 0, 0, 2] + [0] * ln
+        yield [reset(f"{sidp}/pfb1/{ln}"), {"op": "parse", "kind": "pfb", "b": b}]
+
+
+def nack_tiny_universe_sessions(g, n, sidp):
+    """very many small NACK builders from a tiny universe of sequence numbers, one after the other in one process:
+    whatever one of them leaves behind (a memo keyed by a weak fingerprint) meets a different set soon"""
+    r = g.r
+    for i in range(n):
+        ops = [reset(f"{sidp}/{i}")]
+        base = r.choice([0, 100, 65530])
+        for _ in range(150):
+            k = r.choice([2, 2, 3, 4])
+            adds = [(base + v) % 65536 for v in r.sample(range(0, 45), k)]
+            ops += calls_to_ops("tfb", [{"c": "new", "fci": {"f": "nack", "adds": adds}, "owned": False}]) + [
+                {"op": "calc_size"}, {"op": "write_into", "rel": 0, "len": 64, "fill": 1}]
+        yield ops
+
+
+def exact_max_sessions(g, sidp):
+    """configurations that fit the 65536-word maximum exactly, with and without padding, and one word more"""
+    for pad in (0, 4, 8):
+        for extra in (0, 4):
+            tot = 262144 + extra
+            yield build_session(f"{sidp}/app/{pad}/{extra}", "app", [{"c": "new", "ssrc": [0, 1], "name": [65]},
+                                {"c": "data", "v": [], "big": {"rep": 3, "n": tot - 12 - pad}}, {"c": "padding", "v": pad}], rt=False)
+            k = (tot - 12 - pad) // 8
+            if (tot - 12 - pad) % 8 == 0:
+                adds = [[[i // 65536 + 1, i % 65536], i % 256] for i in range(k)]
+                yield build_session(f"{sidp}/fir/{pad}/{extra}", "pfb", [{"c": "new", "fci": {"f": "fir", "adds": adds}, "owned": False}, {"c": "padding", "v": pad}], rt=False)
+            k = (tot - 12 - pad) // 4
+            adds = [[i % 8192, 1, i % 64] for i in range(k)]
+            yield build_session(f"{sidp}/sli/{pad}/{extra}", "pfb", [{"c": "new", "fci": {"f": "sli", "adds": adds}, "owned": True}, {"c": "padding", "v": pad}], rt=False)
+    for k in (65535, 65536, 70000):          # more FIR entries than 16 bits count
+        adds = [[[i // 65536 + 1, i % 65536], i % 256] for i in range(k)]
+        yield build_session(f"{sidp}/firmany/{k}", "pfb", [{"c": "new", "fci": {"f": "fir", "adds": adds}, "owned": False}], rt=False)
 
 def item_type_sweep(g, sidp):
     """every SDES item type with an empty, a one-byte and a three-byte value: parsed from bytes and built"""
@@ -958,6 +1047,10 @@ def c01(g, tier):
     yield from reparse_sessions(g, 150 if q else 4000, "C01/reparse")
     yield from nack_pair_sessions(g, 100 if q else 3000, "C01/npair")
     yield from count_body_sweep(g, "C01/cnt")
+    yield from padding_count_sweep(g, "C01/padcnt")
+    yield from bye_body_sweep(g, "C01/bye")
+    yield from huge_direct_sessions(g, "C01/huge")
+    yield from big_sli_sessions(g, "C01/bigsli")
 
 
 def c08(g, tier):
@@ -967,6 +1060,8 @@ def c08(g, tier):
     yield from concat_sessions(g, 300 if q else 8000, "C08/concat")
     yield from reparse_sessions(g, 200 if q else 5000, "C08/reparse")
     yield from count_body_sweep(g, "C08/cnt")
+    yield from padding_count_sweep(g, "C08/padcnt")
+    yield from bye_body_sweep(g, "C08/bye")
     yield from big_inputs(g, "C08/big", 0)
 
 
@@ -1004,6 +1099,8 @@ def fixed_layout_bodies(g, n, sidp):
 def c09(g, tier):
     q = tier == "quick"
     yield from count_body_sweep(g, "C09/cnt")
+    yield from padding_count_sweep(g, "C09/padcnt")
+    yield from bye_body_sweep(g, "C09/bye")
     yield from fixed_layout_bodies(g, 4000 if q else 100000, "C09/body")
     for i in range(800 if q else 20000):
         k, calls = g.builder(g.r.choice(["sr", "rr", "app", "bye", "tfb", "pfb", "unk"]), small=g.r.random() < 0.5)
@@ -1128,7 +1225,7 @@ def c14(g, tier):
 def c14_big(g):
     """compounds whose total size passes 64 KiB (each member well below the per-packet limit)"""
     rr = {"kind": "rr", "calls": [{"c": "new", "ssrc": g.u32()}], "pb": False}
-    for nbytes in (65500, 65508, 65536, 131072):
+    for nbytes in (65500, 65508, 65536, 131072, 262100):
         unk = {"kind": "unk", "calls": [{"c": "new", "type": 77, "data": [], "big": {"rep": 9, "n": nbytes}, "via": "builder"}], "pb": True}
         app = {"kind": "app", "calls": [{"c": "new", "ssrc": g.u32(), "name": [65]}, {"c": "padding", "v": 4}], "pb": False}
         calls = [{"c": "new"}, {"c": "add_packet", "v": rr}, {"c": "add_packet", "v": unk}, {"c": "add_packet", "v": app}]
@@ -1144,6 +1241,7 @@ def c15(g, tier):
     yield from nack_many(g, "C15/many")
     yield from big_sli_sessions(g, "C15/bigsli")
     yield from nack_pair_sessions(g, 300 if q else 8000, "C15/npair")
+    yield from huge_direct_sessions(g, "C15/huge")
     # single-word sweeps
     r = g.r
     pids = [0, 1, 0x7fff, 0xffee, 0xffef, 0xfff0, 0xffff]
@@ -1193,6 +1291,9 @@ def c18(g, tier):
     yield from fci_sessions(g, 1500 if q else 40000, "C18/fci")
     yield from reparse_sessions(g, 200 if q else 5000, "C18/reparse")
     yield from count_body_sweep(g, "C18/cnt")
+    yield from padding_count_sweep(g, "C18/padcnt")
+    yield from bye_body_sweep(g, "C18/bye")
+    yield from huge_direct_sessions(g, "C18/huge")
     yield from big_inputs(g, "C18/big", 0)
 
 
